@@ -11,7 +11,8 @@ count (no bound), every draw `u = un/ud ∈ [0,1]`, and every argument on the do
 `DomP p` (multiplier ≥ 1, 0 ≤ randomization ≤ 2, 0 ≤ base, max < 2^63).  Notation:
 `prod = base·(mn/md)^count`, `jit = (u − 1/2)·(rn/rd)·base`, `halfW = (rn/rd)/2·base`, all in `ℚ`.
 
-* `C18_stop_iff`     — the answer is `-1` exactly when a limit is set and the count exceeds it;
+* `C18_stop_iff`     — the answer is `-1` exactly when a limit is set and the count exceeds it
+                       (`Stops p := 0 ≤ p.limit ∧ p.limit < p.count`, defined in `MV.Lemmas.Backoff`);
 * `C18_range`        — otherwise `0 ≤ d ≤ max`; `C18_le_max` — `d ≤ max` (or the stop signal) holds for
                        *all* arguments and all float values, NaN and infinities included;
 * `C18_band`         — while `prod + jit < max`: `|d − prod| ≤ halfW + 1`;
@@ -45,25 +46,6 @@ on the implementation with a relative tolerance of 2^-40).
 -/
 namespace MV.Props.C18
 open MV.Model.Backoff MV.Model.Backoff.FVal MV.Lemmas.Backoff MV.Spec.Backoff
-
-/-- a limit is set and the count exceeds it -/
-def Stops (p : Params) : Prop := 0 ≤ p.limit ∧ p.limit < (p.count : Int)
-
-theorem stop_iff_Stops (p : Params) : stop p = true ↔ Stops p := by
-  unfold stop Stops; rw [decide_eq_true_iff]
-
-theorem backoff_of_stops (p : Params) (u : FVal) (h : Stops p) : backoff p u = -1 := by
-  unfold Stops at h
-  unfold backoff
-  have : (p.count : Int) > p.limit ∧ p.limit > -1 := by omega
-  rw [if_pos this]
-
-theorem backoff_of_not_stops (p : Params) (u : FVal) (h : ¬ Stops p) :
-    backoff p u = delay p.count p.base p.max p.mn p.md p.rn p.rd u := by
-  unfold Stops at h
-  unfold backoff
-  have : ¬ ((p.count : Int) > p.limit ∧ p.limit > -1) := by omega
-  rw [if_neg this]
 
 /-- **stop signal**: `-1` is returned exactly when `limit ≥ 0` and `count > limit` -/
 theorem C18_stop_iff (p : Params) (un ud : Nat) (D : DomP p) (hud : 0 < ud) (hu : un ≤ ud) :
@@ -249,46 +231,6 @@ theorem C18_retry_refines :
   ⟨retry_eq_spec, retryForever_eq_spec, retryByRule_eq_spec,
    fun s cond ig mr _ _ _ _ _ _ _ => condLoop_eq_spec s cond ig mr _⟩
 
-/-- the attempt at which the conditional back-off retry stops -/
-def stopAttempt (s : List Outcome) (cond : Option (List Bool)) (ig : List Nat) (mr : Int) : Nat :=
-  firstIdx (condStop s cond ig mr) s.length
-
-theorem stopAttempt_le_maxRetries (s : List Outcome) (cond : Option (List Bool)) (ig : List Nat) (mr : Int) :
-    stopAttempt s cond ig mr ≤ mr.toNat := by
-  unfold stopAttempt
-  by_contra h
-  have hlt : mr.toNat < firstIdx (condStop s cond ig mr) s.length := by omega
-  have := firstIdx_not _ _ _ hlt
-  unfold condStop at this
-  cases hc : condAt cond mr.toNat with
-  | false => rw [hc] at this; simp at this
-  | true =>
-    rw [hc] at this
-    cases ho : outcomeAt s mr.toNat with
-    | none => rw [ho] at this; simp at this
-    | some e =>
-      rw [ho] at this
-      simp at this
-
-theorem stopAttempt_le_firstOk (s : List Outcome) (cond : Option (List Bool)) (ig : List Nat) (mr : Int) :
-    stopAttempt s cond ig mr ≤ firstOk s := by
-  unfold stopAttempt
-  by_contra h
-  have hlt : firstOk s < firstIdx (condStop s cond ig mr) s.length := by omega
-  have := firstIdx_not _ _ _ hlt
-  rw [condStop_of_none s cond ig mr _ (firstOk_none s)] at this
-  exact absurd this (by decide)
-
-theorem condRetry_calls_le (s : List Outcome) (cond : Option (List Bool)) (ig : List Nat) (mr : Int)
-    (d : Nat → Int) : (MV.Spec.Retry.condRetry s cond ig mr d).calls ≤ stopAttempt s cond ig mr + 1 := by
-  unfold MV.Spec.Retry.condRetry stopAttempt
-  simp only []
-  split
-  · simp
-  · split
-    · simp
-    · split <;> simp
-
 /-- **invocation counts**: `Retry` calls `f` at most `count` times, the back-off variants at most
     `maxRetries + 1` times, and no helper calls `f` again after its first success -/
 theorem C18_retry_count :
@@ -377,22 +319,6 @@ theorem C18_retry_first_success :
       · intro _; exact condStop_of_none s cond ig mr _ (firstOk_none s)
     rw [hidx, firstOk_none s, hcond (firstOk s) (Nat.le_refl _)]
     simp
-
-/-- the closed form when the attempt `r` is known to be the first stopping one -/
-theorem condRetry_at (s : List Outcome) (cond : Option (List Bool)) (ig : List Nat) (mr : Int) (d : Nat → Int)
-    (r : Nat) (hgo : ∀ j, j < r → condStop s cond ig mr j = false) (hstop : condStop s cond ig mr r = true) :
-    MV.Spec.Retry.condRetry s cond ig mr d = condResult s cond ig r ((List.range r).map d) := by
-  have hr : r ≤ s.length := by
-    by_contra h
-    have := hgo s.length (by omega)
-    rw [condStop_of_none s cond ig mr _ (outcomeAt_length s _ (Nat.le_refl _))] at this
-    exact absurd this (by decide)
-  have hidx : firstIdx (condStop s cond ig mr) s.length = r :=
-    firstIdx_eq_of _ _ _ hr hgo (fun _ => hstop)
-  unfold MV.Spec.Retry.condRetry condResult
-  simp only []
-  rw [hidx]
-  rfl
 
 /-- **ignore list**: the first error that `errors.Is` one of the ignored errors is returned unchanged,
     right after that call: no further invocation, no further sleep -/
